@@ -1,20 +1,21 @@
+pub mod c01;
+pub mod c01m;
 pub mod c03;
-pub mod c06;
-pub mod c08;
-pub mod c12;
-pub mod c13;
 pub mod c04;
 pub mod c05;
-pub mod c11;
-pub mod c14;
+pub mod c06;
 pub mod c07;
-pub mod c01m;
-pub mod c01;
+pub mod c08;
+pub mod c09;
+pub mod c10;
+pub mod c11;
+pub mod c12;
+pub mod c13;
+pub mod c14;
 pub mod c15;
 pub mod c16;
 pub mod c17;
 pub mod c19;
-pub mod c10;
 pub mod evs;
 pub mod fraggen;
 pub mod ost;
@@ -40,6 +41,7 @@ pub fn run_property<C: Codec>(id: &str, tier: Tier) -> i32 {
         "C17" => c17::run::<C>(tier),
         "C19" => c19::run::<C>(tier),
         "C10" => c10::run::<C>(tier),
+        "C09" => c09::run::<C>(tier),
         _ => {
             println!("INCONCLUSIVE unknown property {id}");
             2
@@ -57,7 +59,10 @@ pub fn replay<C: Codec>(text: &str) -> i32 {
     };
     if head.check.starts_with("exhaustive") {
         // an exhaustive sub-domain is deterministic: replaying it means enumerating it again
-        println!("replaying an exhaustive sub-domain: re-running the quick check of {}", head.property);
+        println!(
+            "replaying an exhaustive sub-domain: re-running the quick check of {}",
+            head.property
+        );
         return run_property::<C>(&head.property, Tier::Quick);
     }
     let known = super::engine::load_known::<C>(&head.property);
@@ -78,12 +83,16 @@ pub fn replay<C: Codec>(text: &str) -> i32 {
         "C17" => c17::replay::<C>(text, &known),
         "C19" => c19::replay::<C>(text, &known),
         "C10" => c10::replay::<C>(text, &known),
+        "C09" => c09::replay::<C>(text, &known),
         _ => None,
     };
     match r {
         Some(code) => code,
         None => {
-            println!("INCONCLUSIVE no sub-check accepts this replay file (property={} check={})", head.property, head.check);
+            println!(
+                "INCONCLUSIVE no sub-check accepts this replay file (property={} check={})",
+                head.property, head.check
+            );
             2
         }
     }
